@@ -140,7 +140,8 @@ def run(rep):
         effs = [e for e in ogp.effects.get(cq, []) if e['in'] == cq]
         hidx = [i for i, p in enumerate(cf['params']) if p['ty'].replace(' ', '').lstrip('&').startswith(('Handle<', 'naga::Handle<'))]
         sidx = [i for i, p in enumerate(cf['params']) if 'Set<' in p['ty'].replace(' ', '')]
-        midx = [i for i, p in enumerate(cf['params']) if p['ty'].replace(' ', '').endswith('Module')]
+        midx = [i for i, p in enumerate(cf['params']) if p['ty'].replace(' ', '').endswith('Module') or
+                (p['pat'].get('name') == 'self' and str(cf.get('impl_of', '')).replace(' ', '').endswith('Module'))]      # a method of an extension trait of naga::Module
         if not hidx or not sidx or not midx:
             rep.bad('C08.closure', f'params:{cq}', cwhere, 'cannot identify handle/set/module parameters of the closure function', undecided=True)
             continue
